@@ -1,5 +1,6 @@
 //! Conformance harness of the fclones verification machinery (built with --cfg fclones_verif).
 mod glob;
+mod quote;
 mod sem;
 
 fn main() {
@@ -13,6 +14,7 @@ fn main() {
         "sem-replay" => sem::replay(rest),
         "sem-stress" => sem::stress(rest),
         "glob" => glob::run(rest),
+        "quote" => quote::run(rest),
         "selector" => glob::selector(rest),
         other => {
             eprintln!("unknown command {other}");
